@@ -20,12 +20,17 @@ def build(where, kinds, handlers, args, double_kind=None, only_exec=False):
     sv::attr is written *above* sv::msg for h1 and s0 and below it for the others; with only_exec the
     query and sudo kinds have no handler at all (their message types are empty but still exist)."""
     ms = []
+    apart = bool(double_kind) and double_kind.endswith("~")   # the second attribute of a kind is written after the other kinds' attributes
+    if apart:
+        double_kind = double_kind[:-1]
     for (k, n) in HANDLERS:
         if only_exec and k != "exec":
             continue
         a = []
         for an in ("a", "b"):
             attrs = ('#[%s]' % marker("A_%s_%s" % (n, an)),) if (n, an) in args else ()
+            if attrs and double_kind and (n, an) == ("h0", "a"):
+                attrs = attrs + ('#[%s]' % marker("A2_%s_%s" % (n, an)),)   # two attributes with one path on one argument
             a.append(Arg(an, "u32", attrs))
         sv = ('#[sv::attr(%s)]' % marker("V_" + n),) if n in handlers else ()
         if n in handlers and n == "h0" and double_kind:
@@ -34,12 +39,13 @@ def build(where, kinds, handlers, args, double_kind=None, only_exec=False):
             ms.append(Method(k, n, tuple(a), attrs=sv))
         else:
             ms.append(Method(k, n, tuple(a), sv_attrs=sv))
-    mattrs = []
+    mattrs, late = [], []
     for k in KINDS6:
         if k in kinds:
             mattrs.append("%s, %s" % (k, marker("M_" + k)))
             if double_kind == k:
-                mattrs.append("%s, %s" % (k, marker("M2_" + k)))
+                (late if apart else mattrs).append("%s, %s" % (k, marker("M2_" + k)))
+    mattrs += late
     if where == "contract":
         base = [Method("instantiate", "inst", (Arg("a", "u32"),)), Method("migrate", "mig", (Arg("a", "u32"),))]
         return Contract(methods=tuple(base + ms), msg_attrs=tuple(mattrs))
@@ -77,6 +83,8 @@ def variant_of(items, tname, index):
 
 def expected_locations(where, kinds, handlers, args, items, double_kind, only_exec=False):
     pre = "" if where == "contract" else "If"
+    if double_kind and double_kind.endswith("~"):
+        double_kind = double_kind[:-1]
     exp = {}
     for k in kinds:
         if k == "reply" or (where == "interface" and k in ("instantiate", "migrate")):
@@ -101,6 +109,8 @@ def expected_locations(where, kinds, handlers, args, items, double_kind, only_ex
         for an in ("a", "b"):
             if (n, an) in args:
                 exp["A_%s_%s" % (n, an)] = ["field:/sv/%s::%s.%s" % (tn, vn, an)]
+                if double_kind and (n, an) == ("h0", "a"):
+                    exp["A2_%s_%s" % (n, an)] = ["field:/sv/%s::%s.%s" % (tn, vn, an)]
     return exp
 
 
@@ -124,6 +134,9 @@ def configs(tier):
                 yield (k, h, tuple(ARGS), None)
     for dk in KINDS6[:5]:
         yield ((dk, "exec"), ("h0",), (), dk)
+        # the same kind's attributes written apart (other kinds' attributes in between); two attributes on one argument
+        yield (tuple(KINDS6[:5]), ("h0",), (("h0", "a"), ("h0", "b")), dk + "~")
+        yield ((dk, "query" if dk != "query" else "sudo"), ("h0", "q0"), (("h0", "a"),), dk + "~")
     # kinds without any handler still get their forwarded attributes
     for k in ks:
         yield (k, ("h0", "h1"), (("h0", "a"),), "only_exec")
@@ -162,7 +175,7 @@ def run_e1(res, tier):
         order = {}
         for path, attrs in locs:
             for a in attrs:
-                m = re.search(r'doc\s*=\s*"((?:M2?|V2?|A)_[a-z0-9_]+)"', a)
+                m = re.search(r'doc\s*=\s*"((?:M2?|V2?|A2?)_[a-z0-9_]+)"', a)
                 if m:
                     found.setdefault(m.group(1), []).append(path)
                     order.setdefault(path, []).append(m.group(1))
@@ -172,7 +185,7 @@ def run_e1(res, tier):
                 res.violation({"kind": "attrs", "cls": "placement", "pid": o["id"], "program": src, "marker": tag, "found": found.get(tag, []), "expected": exp.get(tag, []),
                                "what": "%s: marker %s found on %s, expected on %s" % (o["id"], tag, found.get(tag, []), exp.get(tag, []))})
         for path, tags in order.items():
-            for first, second in (("M_", "M2_"), ("V_", "V2_")):
+            for first, second in (("M_", "M2_"), ("V_", "V2_"), ("A_", "A2_")):
                 a = [t for t in tags if t.startswith(first)]
                 b = [t for t in tags if t.startswith(second)]
                 if a and b and tags.index(a[0]) > tags.index(b[0]):
